@@ -15,7 +15,7 @@ RULE = ('cases = {fast_matvec (python backend), dmrg_hadamard, amen_mv, amen_mm}
         '||D(y)-ref|| <= 10*eps*||ref|| + 1e3*u*S_rep with ref the dense product. distinct = (routine, structure, eps decade, guess, dtype, seed index); non-trivial = non-zero reference.')
 ASSUMPTIONS = ['"a small constant times eps" is fixed a priori as 10*eps', 'C++ backend off here (use_cpp=False); C17 covers it', 'amen_mv/amen_mm are exercised with real dtypes (their inner products are not conjugated)']
 REQUIRED_REACH = ['_dmrg:dmrg_matvec_python', '_dmrg:dmrg_hadamard_python', '_amen:_amen_mm_python', '_amen:amen_mv', '_amen:amen_mm', '_tt_base:TT.fast_matvec']
-REQUIRED_COUNTS = {'routine:fast_matvec': 1, 'routine:dmrg_hadamard': 1, 'routine:amen_mv': 1, 'routine:amen_mm': 1, 'guess:user': 1, 'order:1': 1, 'order:2': 1, 'executions': 300}
+REQUIRED_COUNTS = {'routine:fast_matvec': 1, 'routine:dmrg_hadamard': 1, 'routine:amen_mv': 1, 'routine:amen_mm': 1, 'guess:user': 1, 'budget:nswp=1': 1, 'budget:nswp=2': 1, 'order:1': 1, 'order:2': 1, 'executions': 300}
 LINE_FUNCS = ['dmrg_matvec_python', 'dmrg_hadamard_python', '_amen_mm_python']
 CASE_TIMEOUT = {'quick': 180, 'thorough': 400}
 MAX_TIMEOUT_FRACTION = 0.0
@@ -69,6 +69,16 @@ def cases(tier, seed):
                     d = len(M)
                     cs.append({'gen': 'prod', 'routine': routine, 'M': M, 'N': N, 'K': [2] * d, 'RA': [1] + [2] * (d - 1) + [1], 'RB': [1] + [2] * (d - 1) + [1], 'vals': vals,
                                'eps': 1e-8, 'guess': guess, 'dtype': 'f64', 'vseed': 12345 + len(cs), 'RG': [1] + [3] * (d - 1) + [1], 'sidx': 0})
+    # directed: exhausted sweep budget (nswp=1,2): the final-sweep branch of the DMRG/AMEn loops (no enrichment, transposed factor); the accuracy clause is NOT demanded here
+    # (the statement is about the default budgets) - only kind/shape/well-formed/finite
+    for i in range(24 if not T else 160):
+        routine = ROUTINES[i % 4]
+        d = rng.choice([2, 3, 4])
+        M = [rng.randint(1, 5) for _ in range(d)]
+        N = [rng.randint(1, 5) for _ in range(d)]
+        cs.append({'gen': 'prod', 'routine': routine, 'M': M, 'N': N, 'K': [rng.randint(1, 3) for _ in range(d)], 'RA': gens.rank_profile(rng, d, 'rand', 4), 'RB': gens.rank_profile(rng, d, 'rand', 4),
+                   'vals': 'gauss', 'eps': 10 ** rng.uniform(-10, -3), 'guess': ['none', 'user'][(i // 4) % 2], 'dtype': 'c128' if (routine in ('fast_matvec', 'dmrg_hadamard') and i % 3 == 2) else 'f64',
+                   'vseed': rng.randrange(2 ** 40), 'RG': gens.rank_profile(rng, d, 'rand', 3), 'sidx': 0, 'scale': 1.0, 'nswp': 1 + (i // 8) % 2})
     return cs
 
 
@@ -131,6 +141,17 @@ def run_case(case, ctx):
             guess = mk(case, g, K, case['RG'], M=M, vals='gauss')
         f = (lambda a, b, c: torchtt.amen_mm(a, b, X0=c, eps=eps)) if guess is not None else (lambda a, b: torchtt.amen_mm(a, b, eps=eps))
         ops = (A, x)
+    nswp = case.get('nswp')
+    if nswp:
+        ctx.count('budget:nswp=%d' % nswp)
+        if routine == 'fast_matvec':
+            f = (lambda a, b, c: a.fast_matvec(b, eps=eps, initial=c, nswp=nswp, use_cpp=False)) if guess is not None else (lambda a, b: a.fast_matvec(b, eps=eps, nswp=nswp, use_cpp=False))
+        elif routine == 'dmrg_hadamard':
+            f = (lambda a, b, c: torchtt.dmrg_hadamard(a, b, z0=c, eps=eps, nswp=nswp)) if guess is not None else (lambda a, b: torchtt.dmrg_hadamard(a, b, eps=eps, nswp=nswp))
+        elif routine == 'amen_mv':
+            f = (lambda a, b, c: torchtt.amen_mv(a, b, x0=c, eps=eps, nswp=nswp)) if guess is not None else (lambda a, b: torchtt.amen_mv(a, b, eps=eps, nswp=nswp))
+        else:
+            f = (lambda a, b, c: torchtt.amen_mm(a, b, X0=c, eps=eps, nswp=nswp)) if guess is not None else (lambda a, b: torchtt.amen_mm(a, b, eps=eps, nswp=nswp))
     if guess is not None:
         ctx.count('guess:user')
         ops = ops + (guess,)
@@ -158,6 +179,13 @@ def run_case(case, ctx):
         ctx.viol(key + '/clause=ill-formed-result', '%s: %s' % (what, e))
         return
     err = dn.fro(dy - ref)
+    if nswp:
+        if not bool(torch.isfinite(dy.abs().sum())):
+            ctx.viol(key + '/clause=non-finite(nswp=%d)' % nswp, '%s nswp=%d: non-finite entries in the result' % (what, nswp))
+        if nref > 0:
+            ctx.metric('exhausted_budget_err_over_eps_norm/nswp=%d' % nswp, err / (eps * nref))
+            ctx.nontrivial((routine, tuple(M), tuple(N), 'nswp', nswp, case['guess'], case['dtype']))
+        return
     allow = C_EPS * eps * nref + 1e3 * u * srep
     if allow > 0:
         ctx.metric('err_over_allowance', err / allow)
